@@ -4,7 +4,7 @@ NOTES = ("Runtime monitoring only: every check executes the real code of /repo u
          "over what was observed. VERIF_SEED changes every random choice; VERIF_TIER overrides the tier. Exit 2 = build/harness failure "
          "(never a VIOLATION line). Known findings: /verif/known_findings.json. See DESIGN.md.")
 ENGINES = [
-    {"name": "vmux", "path": "harness/mux", "serves_properties": ["C09"],
+    {"name": "vmux", "path": "harness/mux", "serves_properties": ["C09", "C18", "C20"],
      "kind_free_text": "Rust harness over penguin-mux/cow-bytes/penguin-socks: PURE differential monitors, SIM (tokio current-thread, paused clock, in-memory WebSocket with wire tap and fault plan), THR, MICRO, Miri"},
 ]
 NOT_APPLICABLE = {}
@@ -17,5 +17,21 @@ TEXT = {
                       "encode equality, decode accept/reject equality, field equality via re-encoding, no panic in a production-profile build. "
                       "Bounded-exhaustive over short strings from a boundary alphabet, seeded mutation and random beyond. Exploration, not proof.",
         "level_note": "Trusted: the reference codec's reading of PROTOCOL.md; inputs outside the generated set are not covered.",
+    },
+    "C18": {
+        "engine": "vmux (PURE)",
+        "technique": "differential runtime monitor: real SOCKS readers/writers vs reference RFC 1928/SOCKS4/4a grammar, every truncation point, chunked delivery",
+        "design_ref": "DESIGN.md §4 C18",
+        "level_text": "Each generated request is fed to the real readers through a reader that delivers a few bytes per poll; result, bytes consumed (sentinel check) and every truncation "
+                      "(EOF => error, idle => still waiting, decided exactly by a waker-flag executor) are compared with a reference grammar; reply writers and the UDP relay header are compared byte-exactly / by reference parse. Exploration.",
+        "level_note": "Trusted: the reference grammar. Domain lengths 0..255 and all command/reply codes are covered systematically, the rest by seeded generation.",
+    },
+    "C20": {
+        "engine": "vmux (PURE, Miri in thorough)",
+        "technique": "reference-model runtime monitor: LongChain/CowBytes twins vs Vec<u8> after every operation; bounded-exhaustive operation sequences + random; Miri UB interpreter on a subset",
+        "design_ref": "DESIGN.md §4 C20",
+        "level_text": "Every operation of every sequence is executed on three real chains (borrowed, owned, mixed) and a Vec<u8> model; len/remaining/is_empty/chunks/drain are compared after each step in a "
+                      "production-profile build; all sequences up to length 3 (quick) or 4 (thorough) over a 41-operation boundary alphabet are enumerated. Exploration with an exhaustive sub-space.",
+        "level_note": "Trusted: the Vec<u8> model. Sequences longer than the enumerated bound are only sampled.",
     },
 }
